@@ -134,6 +134,7 @@ func GenCase(t *rapid.T, withFaults bool) *Case {
 	}
 	c.P = rapid.SampledFrom([]int64{150, 300}).Draw(t, "P")
 	c.Idle = rapid.SampledFrom([]string{"off", "now", "now", "long"}).Draw(t, "idle")
+	c.FileMode = rapid.IntRange(0, 4).Draw(t, "fileMode") == 0
 	c.DisableAlleviate = rapid.IntRange(0, 4).Draw(t, "disableAlleviate") == 0
 	c.RetainStore = rapid.Bool().Draw(t, "retainStore")
 	c.NewShardDelay = pick(t, "newShardDelay", 6, 2, 1)
@@ -340,6 +341,47 @@ func GenHeldMove(t *rapid.T) *Case {
 		}
 		c.Prefix = append(c.Prefix, Action{Kind: "cycle"})
 	}
+	c.RandSeed = int64(rapid.IntRange(1, 1<<30).Draw(t, "randSeed"))
+	return c
+}
+
+// GenDrift draws a fault-free case in file mode in which one shard of the initial fleet runs a configuration that
+// differs from the coordinator's in one setting (a secret, a relabel regex, an interval).
+func GenDrift(t *rapid.T) *Case {
+	c := GenCase(t, false)
+	c.FileMode = true
+	if c.InitShards == 0 {
+		c.InitShards = rapid.IntRange(1, 4).Draw(t, "driftShards")
+	}
+	if rapid.IntRange(0, 2).Draw(t, "driftIdle") != 0 {
+		c.Idle = "now" // scale-down is on and idle shards expire at once
+	}
+	sh := c.InitShards - 1
+	if rapid.IntRange(0, 2).Draw(t, "driftAtTail") == 0 {
+		sh = rapid.IntRange(0, c.InitShards-1).Draw(t, "driftShard")
+	}
+	c.Drift = &DriftSpec{Shard: sh, Kind: rapid.SampledFrom([]string{"password", "password", "regex", "interval"}).Draw(t, "driftKind")}
+	if rapid.Bool().Draw(t, "driftedShardEmpty") {
+		// the drifted shard holds nothing: an idle tail shard is what scale-down looks for
+		var keep []InitCopy
+		for _, ic := range c.Init {
+			if ic.Shard != sh {
+				keep = append(keep, ic)
+			}
+		}
+		c.Init = keep
+	}
+	return c
+}
+
+// GenBig draws a case whose assignment is megabytes of JSON: thousands of small targets with pod-sized label sets.
+func GenBig(t *rapid.T) *Case {
+	c := &Case{L: 0, P: 1 << 40, InitShards: rapid.IntRange(1, 2).Draw(t, "shards"), Idle: rapid.SampledFrom([]string{"off", "long"}).Draw(t, "idle")}
+	c.Min, c.Max = int32(c.InitShards), int32(c.InitShards)
+	c.Bulk = rapid.SampledFrom([]int{1500, 3000, 6000}).Draw(t, "bulk")
+	c.LabelPad = rapid.SampledFrom([]int{160, 400, 800}).Draw(t, "labelPad")
+	c.Targets = []FarmSpec{{Hash: 1, Job: "j0", Series: 10, Total: 10, Healthy: true}}
+	c.FileMode = rapid.IntRange(0, 3).Draw(t, "fileMode") == 0
 	c.RandSeed = int64(rapid.IntRange(1, 1<<30).Draw(t, "randSeed"))
 	return c
 }
